@@ -316,7 +316,7 @@ def assemble(repo):
     out.append("")
     out.append("pub mod code {")
     out += imports + [local, "use super::spec::*;"]
-    lemmas = re.findall(r"pub broadcast proof fn (\w+)", open(os.path.join(vf.VERIF, "verus", "prelude.rs")).read())
+    lemmas = re.findall(r"pub broadcast (?:proof|axiom) fn (\w+)", open(os.path.join(vf.VERIF, "verus", "prelude.rs")).read())
     out.append("broadcast use {%s};" % ", ".join("super::spec::" + l for l in lemmas))
     out.append("")
     fns, lost = [], []
